@@ -421,6 +421,15 @@ theorem gen_commands_release_all (c : String × String × String × Bool × Bool
 /-- the lock file is created exclusively in the source now (what `mutex_excl_interleaved` needs) -/
 theorem gen_lock_exclusive : GitBugModel.Gen.Commands.lockExclusive = true := by decide
 
+/-- regenerated from commands/webui.go: `webui` opens the cache inside its run function (its loader
+only opens the repository, so the command table above does not see it); every return after that —
+the cache build failing, the configuration unreadable, the server unable to start — closes the cache
+first; the last return is reached after the signal handler closed it.  (Before the repair the
+server-cannot-start return left the lock behind: found with the binary, `c19Webui`.) -/
+theorem gen_webui_releases :
+    GitBugModel.Gen.Commands.webuiReturns = ["closed", "closed", "closed", "final"] := by
+  decide
+
 /-! ## the content of the lock file -/
 
 /-- a pid that is written is read back: for every pid with fewer digits than the length at which
